@@ -245,8 +245,14 @@ func (k Keeper) refundPacketToken(ctx sdk.Context, data types.NonFungibleTokenPa
 	voucherClass := classTrace.IBCClass()
 
 	if data.AwayFromOrigin {
+		// what was locked is either a voucher received earlier (its class trace is on record)
+		// or a class native to this chain, which is held under its own id even if that id contains '/'
+		lockedClass := data.Class
+		if k.HasClassTrace(ctx, classTrace.Hash()) {
+			lockedClass = voucherClass
+		}
 		// unlock
-		if err := k.nk.TransferOwner(ctx, voucherClass, data.Id, DoNotModify, DoNotModify, DoNotModify,
+		if err := k.nk.TransferOwner(ctx, lockedClass, data.Id, DoNotModify, DoNotModify, DoNotModify,
 			k.GetNftTransferModuleAddr(types.ModuleName), sender); err != nil {
 			return err
 		}
